@@ -1,7 +1,7 @@
 From Coq Require Import ZArith List Bool Lia ZifyBool.
-From HV Require Import Prelude.Py Prelude.State Bridge.BridgeConsts.
+From HV Require Import Prelude.Py Prelude.State Bridge.BridgeConsts Bridge.B_table_entry_size.
 From HV Require Gen.GData Gen.GInt Gen.GTable Gen.GHuff Model.Data Model.Int Model.Table Model.HuffEnc Model.HuffDec.
 Open Scope Z_scope.
 Lemma b_HeaderTable__shrink : forall t, GTable.HeaderTable__shrink t = Table.HeaderTable__shrink t.
-Proof. bridge. Qed.
+Proof. bridge_with ltac:(rewrite ?b_table_entry_size). Qed.
 Print Assumptions b_HeaderTable__shrink.
